@@ -8,7 +8,7 @@ import PkgProofs.Lemmas.MarkerEval
 
 * `_eval_op_eq_model`, `_normalize_eq_model`, `_get_env_eq_model`: the three helpers;
 * `_evaluate_markers_eq_model`: by induction on the recursion fuel (`_evaluate_markers__fuel_eq_model`); the
-  `for marker in markers` loop is handled by `evalLoop_forIn` (a loop lemma over an abstract body satisfying `StepSpec`),
+  `for marker in markers` loop is handled by `evalLoop_forIn` (a loop lemma over an abstract body satisfying `MkStepSpec`),
   which is applied to the generated body by unification, so that the text of the body is not repeated here;
 * `_repair_python_full_version_eq_model`, `Marker.evaluate_eq_model`: dicts against the model's association lists
   (`EnvRel`); `Marker.evaluate_eq_model` needs the keys of the default environment to be pairwise distinct
@@ -349,14 +349,14 @@ theorem evalLoop_cons (ν : Mk.Atom → Mk.Res Bool) (m : Mk.M) (rest : List Mk.
     · split <;> rfl
 
 /-- one iteration of the translated loop agrees with the model's -/
-def StepSpec (ν : Mk.Atom → Mk.Res Bool) (body : PyVal → LSt → M (ForInStep LSt)) (m : Mk.M) : Prop :=
+def MkStepSpec (ν : Mk.Atom → Mk.Res Bool) (body : PyVal → LSt → M (ForInStep LSt)) (m : Mk.M) : Prop :=
   ∀ (s : LSt) (done : List (List Bool)) (cur : List Bool), s.groups = ofGroups (done ++ [cur]) →
     match stepRes ν m done cur with
     | .ok p => ∃ s', body (ofM m) s = .ok (.yield s') ∧ s'.groups = ofGroups (p.1 ++ [p.2])
     | .error e => body (ofM m) s = .error (excName e)
 
 theorem evalLoop_forIn (ν : Mk.Atom → Mk.Res Bool) (body : PyVal → LSt → M (ForInStep LSt)) (items : List Mk.M)
-    (hstep : ∀ m ∈ items, StepSpec ν body m) :
+    (hstep : ∀ m ∈ items, MkStepSpec ν body m) :
     ∀ (s : LSt) (done : List (List Bool)) (cur : List Bool), s.groups = ofGroups (done ++ [cur]) →
       match Mk.evalLoop ν items done cur with
       | .ok gs => ∃ s', forIn (ofMs items) s body = .ok s' ∧ s'.groups = ofGroups gs
@@ -402,7 +402,7 @@ theorem evalLoop_forIn_bind (ν : Mk.Atom → Mk.Res Bool) (body : PyVal → LSt
     (k : LSt → M PyVal) (s : LSt)
     (hs : s.groups = ofGroups [[]])
     (hk : ∀ s' gs, s'.groups = ofGroups gs → k s' = .ok (.bool (Mk.anyAll gs)))
-    (hstep : ∀ m ∈ items, StepSpec ν body m) :
+    (hstep : ∀ m ∈ items, MkStepSpec ν body m) :
     (forIn (ofMs items) s body >>= k) = ofRes PyVal.bool (Mk.evalMarkers ν items) := by
   have := evalLoop_forIn ν body items hstep s [] [] hs
   unfold Mk.evalMarkers
